@@ -92,12 +92,28 @@ fn small_varint(r: &mut Rng) -> u64 {
     }
 }
 
+const ARITH_NUM_SLICES: [usize; 10] = [
+    usize::MAX / 1200,
+    usize::MAX / 1200 - 1,
+    usize::MAX / 1200 + 1,
+    (usize::MAX / 1200) / 2 + 1,
+    (1 << 62) - 1,
+    1 << 61,
+    1 << 53,
+    1 << 32,
+    u32::MAX as usize,
+    (u32::MAX / 1200) as usize,
+];
+
 fn gen_slice(r: &mut Rng, g: &Gen, reliable: bool) -> (Slice, u8) {
     let num_slices = match r.below(8) {
         0 => 1,
         1 => 2,
         2 => 3,
         3 => *r.pick(&[4369usize, 4370, 1_000_000, 999_999, 54, 55]),
+        // arithmetic limits of the announced size (num_slices * 1200 and what is added to it): a decoder cap moved
+        // to 'whatever does not overflow' must still leave the accounting sums representable
+        4 if r.chance(1, 2) => *r.pick(&ARITH_NUM_SLICES),
         _ => r.urange(2, 12),
     };
     let slice_index = match r.below(8) {
@@ -260,7 +276,7 @@ fn gen_field_mut(r: &mut Rng, g: &Gen) -> Option<Vec<u8>> {
             match r.below(6) {
                 0 => slice.message_id = v,
                 1 => slice.slice_index = *r.pick(&[0usize, slice.num_slices - 1, slice.num_slices, slice.num_slices + 1, 1 << 40]),
-                2 => slice.num_slices = *r.pick(&[1usize, 2, slice.num_slices + 1, slice.num_slices.saturating_sub(1).max(1), 1_000_000, 4370]),
+                2 => slice.num_slices = *r.pick(&[1usize, 2, slice.num_slices + 1, slice.num_slices.saturating_sub(1).max(1), 1_000_000, 4370, usize::MAX / 1200, usize::MAX / 1200 - 1, (1 << 62) - 1, 1 << 32]),
                 3 => {
                     let n = *r.pick(&[1usize, 1199, 1200]);
                     slice.payload = Bytes::from(r.bytes(n))
@@ -286,7 +302,7 @@ fn gen_field_mut(r: &mut Rng, g: &Gen) -> Option<Vec<u8>> {
             match r.below(5) {
                 0 => slice.message_id = v,
                 1 => slice.slice_index = *r.pick(&[0usize, slice.num_slices - 1, slice.num_slices, slice.num_slices + 1, 1 << 40]),
-                2 => slice.num_slices = *r.pick(&[1usize, 2, slice.num_slices + 1, slice.num_slices.saturating_sub(1).max(1), 1_000_000, 55]),
+                2 => slice.num_slices = *r.pick(&[1usize, 2, slice.num_slices + 1, slice.num_slices.saturating_sub(1).max(1), 1_000_000, 55, usize::MAX / 1200, usize::MAX / 1200 - 1, (1 << 62) - 1, 1 << 32]),
                 3 => {
                     let n = *r.pick(&[0usize, 1, 1199, 1200, 1201, 1300]);
                     slice.payload = Bytes::from(r.bytes(n))
@@ -365,7 +381,7 @@ fn gen_raw_weird(r: &mut Rng) -> Vec<u8> {
             let _ = w.put_u8(*r.pick(&[CH_U, CH_RU, CH_RO]));
             let _ = w.put_varint(r.below(5));
             let _ = w.put_varint(r.below(5));
-            let _ = w.put_varint(*r.pick(&[1u64, 2, 1, 3, 0, 1_000_001, (1 << 62) - 1])); // num_slices
+            let _ = w.put_varint(*r.pick(&[1u64, 2, 1, 3, 0, 1_000_001, (1 << 62) - 1, u64::MAX / 1200, u64::MAX / 1200 - 1, 1 << 32])); // num_slices
             let _ = w.put_varint(*r.pick(&[0u64, 0, 1, 1201, 1201, 5000])); // payload length
         }
         64 - w.cap()
